@@ -92,7 +92,7 @@ def main(tier):
     run.require(run.nontrivial > 100, "too few states reached through change/delete")
     _cw()
     return run.finish(
-        rule="E2: every distinct state (K_full) reached by histories of depth <= %d, budget <= %d from 5 seeds (edit + phase ops, re-adding deleted names, 3-input muxes, and a solve(energy=True) call in the middle of the history)%s; per state: reference edit semantics vs the structure read "
+        rule="E2: every distinct state (K_full) reached by histories of depth <= %d, budget <= %d from 6 seeds (edit + phase ops, re-adding deleted names, 3-input muxes, and a solve(energy=True) call in the middle of the history)%s; per state: reference edit semantics vs the structure read "
              "from the object (names, kinds, parameters, parent lists with PMux priority order, rails, groups, phase configs, system phases), all 8 reports succeed, and all reports equal "
              "(keyed, 1e-9) those of a fresh system built from that structure in canonical order. non-trivial = states first reached through change_comp / del_comp." % (
                  D, B, "" if tier == "quick" else "; plus depth 4, budget 1 over 3 letters from the mux and freed-index seeds"),
